@@ -326,6 +326,8 @@ def value_fields(fx, cg, body, op, depth=0):
                     ops = [rv["a"], rv["b"]]
                 elif rv["k"] == "agg":
                     ops = rv["ops"]
+                    if rv.get("ak") in ("closure", "coroutine") and rv.get("def") in fx.fns and depth < 2:
+                        out |= fields_read(fx, cg, rv["def"])
                 elif rv["k"] in ("ref", "discr"):
                     ops = [{"copy": rv["place"]}]
             elif kind == "call":
@@ -333,6 +335,11 @@ def value_fields(fx, cg, body, op, depth=0):
                 g = callee_path(payload["callee"])
                 if g in fx.fns and depth < 2:
                     out |= fields_read(fx, cg, g)
+                # closures without captures are passed as function items
+                for a_ in payload["args"]:
+                    cf = (a_.get("const") or {}).get("fn") if isinstance(a_, dict) else None
+                    if cf in fx.fns and depth < 2:
+                        out |= fields_read(fx, cg, cf)
             for o in ops:
                 pl = op_place(o)
                 if pl is None:
@@ -534,9 +541,9 @@ def run(fx, chk, tier):
             for b2, t2 in b.calls():
                 tl2 = (t2["callee"].get("path") or "").split("::")[-1]
                 if tl2 in ("unwrap_or", "map_or", "unwrap_or_else", "or", "map_or_else") and len(t2["args"]) >= 2 and "Option" in (t2["callee"].get("path") or ""):
-                    recv = b.op_str(t2["args"][0])
-                    dflt = b.op_str(t2["args"][1])
-                    if recv.endswith("tfhd.base_data_offset") and "self.moof_offsets" in dflt and (b2 == blk or b.can_reach(blk, b2)):
+                    recv = b.canon_op(t2["args"][0])
+                    dflt = b.canon_op(t2["args"][1])
+                    if recv.rstrip(")").endswith("tfhd.base_data_offset") and ".moof_offsets" in dflt and (b2 == blk or b.can_reach(blk, b2)):
                         # and no other consumer of the loaded value
                         ok, how = True, "default of %s.%s(..)" % (recv.split(".")[-1], tl2)
             # (b) evaluated only on the None side of a test of the field
@@ -545,7 +552,7 @@ def run(fx, chk, tier):
                     ok, how = True, "evaluated on the None side of the test of tfhd.base_data_offset"
             # other uses of the same element on paths that do not go through the combinator: a second Index call is a second instance
             if ok and how.startswith("default of"):
-                cons = [b2 for b2, t2 in b.calls() if b2 != blk and any("Index::index(self.moof_offsets" in b.op_str(a) for a in t2["args"])]
+                cons = [b2 for b2, t2 in b.calls() if b2 != blk and any(".moof_offsets" in b.canon_op(a) and "Index::index(" in b.canon_op(a) for a in t2["args"])]
                 ok = len(cons) <= 1 or all((t3["callee"].get("path") or "").split("::")[-1] in ("unwrap_or", "map_or", "unwrap_or_else", "or", "map_or_else") for b3, t3 in b.calls() if b3 in cons)
             chk.require(ok, "R-BASE", "%s|moof_offsets|%d" % (fn["name"], nbase), how,
                         "%s takes the start of the movie fragment as the base although %s: with an explicit base data offset in the tfhd the sample is read from the wrong place" % (fn["name"], how), site_of(fn, t.get("line")))
